@@ -297,7 +297,21 @@ fn build_member(idx: usize, n: usize, x: usize, cfg: &Value, picker: &mut Picker
     };
     let commit_ids: Vec<Value> = commitments.iter().map(env::point_id).collect();
     let statement = RangeStatement::init(params, commitments, promises.clone(), seed).expect("RangeStatement::init");
-    let wres = RangeWitness::init(openings.into_iter().map(|(v, r)| CommitmentOpening::new(v, r)).collect());
+    let wres = if cfg["witness_in_place"].as_bool().unwrap_or(false) {
+        // the witness object is built from PLACEHOLDER openings of the same shape and every opening is then overwritten through the public field:
+        // what the prover proves and what it keys its randomness with must both be the CURRENT openings (nothing derived at construction time)
+        let ph: Vec<CommitmentOpening> = openings.iter().map(|(_, r)| CommitmentOpening::new(1, r.iter().map(|_| Scalar::ONE).collect())).collect();
+        RangeWitness::init(ph).map(|mut w| {
+            for (j, (v, r)) in openings.into_iter().enumerate() {
+                if j < w.openings.len() {
+                    w.openings[j] = CommitmentOpening::new(v, r);
+                }
+            }
+            w
+        })
+    } else {
+        RangeWitness::init(openings.into_iter().map(|(v, r)| CommitmentOpening::new(v, r)).collect())
+    };
     let (witness, witness_err) = match wres {
         Ok(w) => (Some(w), None),
         Err(e) => (None, Some(format!("{:?}", e))),
